@@ -11,22 +11,6 @@ namespace Tbox.C17
 set_option linter.unusedSimpArgs false
 
 mutual
-/-- no action of the tree is running or paused -/
-def Quiet : T → Bool
-  | .node d cs => !d.underway && QuietL cs
-def QuietL : TL → Bool
-  | .nil => true
-  | .cons t ts => Quiet t && QuietL ts
-end
-
-/-- every child except the one with index `i` is quiet -/
-def QuietExcept : TL → Option Nat → Bool
-  | .nil, _ => true
-  | cs, none => QuietL cs
-  | .cons _ ts, some 0 => QuietL ts
-  | .cons t ts, some (i + 1) => Quiet t && QuietExcept ts (some i)
-
-mutual
 def Inv : T → Bool
   | .node d cs => InvL cs &&
       (if d.underway then (if d.isLeaf then QuietL cs else (d.isPar || QuietExcept cs d.curr)) else QuietL cs)
